@@ -334,10 +334,10 @@ def run(prop, tier, replay=None):
             if io.get("renderable") is not True:
                 rep.violation(dict(base, kind="render", what="error value cannot be rendered"), no_input=False)
                 continue
-            if rule_of(io["msgs"]) != m.get("rule"):
-                rep.cov["disagreements_checked"] += 1
-                rep.violation(dict(base, kind="rule-correspondence", what="same verdict, different first failing rule "
-                                   "(%s vs model %s)" % (rule_of(io["msgs"]), m.get("rule"))), no_input=True)
+            # which rule fails first is read from the message text: informative only (the property is about the verdict; a
+            # reworded message or another order of equally failing checks is not a violation)
+            rep.hist("first_failing_rule", "same as model" if rule_of(io["msgs"]) == m.get("rule") else
+                     "differs: %s vs model %s" % (rule_of(io["msgs"]), m.get("rule")))
     # permutation invariance, directly on the implementation
     for k in range(0, len(cases), 2):
         for cs in ("general", "dbc", "can_c"):
